@@ -94,7 +94,7 @@ def gen_history(rng, g):
     return ins, outs, steps
 
 
-def run_history(ins, outs, steps):
+def run_history(ins, outs, steps, semantic=None):
     """Executes the history; returns (cases, purity problems, list of (request key, bytes hash))."""
     allv = reachable_vars(list(outs.values()) + list(ins.values()))
     problems, cases, hashes = [], [], []
@@ -112,6 +112,15 @@ def run_history(ins, outs, steps):
             problems.append((f"C12/var-{what}-changed", f"step {si} ({c.impl[:40]}…) changed the {what} of a Var: {before[j][0]!r} -> {after[j][0]!r}", si))
         if model_bytes(allv) != mb:
             problems.append(("C12/inlined-model-modified", f"step {si} modified an inlined model", si))
+        if c.model_proto is not None and semantic is not None:
+            # a model built later in a history must be as good as one built first: placement, multiplicity and values
+            from harness import c01, c04
+            pp = c04.placement_oracle(c.model_proto)
+            if pp:
+                problems.append(("C12/rebuild-misplaced", f"step {si}: " + pp[0][:200], si))
+            sp = c01.semantic_oracle(c, semantic, trials=1)
+            if sp:
+                problems.append(("C12/rebuild-wrong-value" if "!=" in sp else "C12/rebuild-ort-fails", f"step {si}: " + sp[:220], si))
         if c.model_proto is not None:
             h = hashlib.sha256(c.model_proto.SerializeToString(deterministic=True)).hexdigest()
             key = (tuple((k, id(v)) for k, v in i2.items()), tuple((k, id(v)) for k, v in o2.items()), drop)
@@ -142,10 +151,11 @@ def run(run: Run) -> int:
     nh = 40 if run.tier == "quick" else 400
     g = B.GenX(run.rng, leak_p=0.1)
     all_cases, all_hashes, n_steps, n_prob = [], [], 0, 0
+    nprng = np.random.RandomState(run.seed)
     hist = collections.Counter()
     for hi in range(nh):
         ins, outs, steps = gen_history(run.rng, g)
-        cases, problems, hashes = run_history(ins, outs, steps)
+        cases, problems, hashes = run_history(ins, outs, steps, semantic=nprng)
         all_hashes.append(hashes)
         n_steps += len(steps)
         for c in cases:
